@@ -45,6 +45,29 @@ package platform
 //@   let b = c.Better(t, p)
 //@   assert runnable: b ==> Compatible(c.host, t)
 
+// C16 what "runnable" means - taken from the documentation of Compatible ("indicates if a host can
+// run a specified target platform image; this accounts for Docker Desktop for Mac and Windows
+// using a Linux VM"), not from its code, so that a change of the code's notion of compatibility is
+// a change against something: (1) every host runs images of its own platform; (2) a windows or
+// darwin host runs a linux image of its own architecture and variant whatever OS version or
+// features the host itself reports (the image runs in the Linux VM).
+//@ lemma runnable-own-platform
+//@   prop C16
+//@   inline NewCompare, Compatible
+//@   forall host Platform
+//@   let c = NewCompare(host, nil)
+//@   let x = c.Compatible(c.host)
+//@   assert a-host-runs-its-own-platform: x
+//@ lemma runnable-linux-image-in-the-desktop-vm
+//@   prop C16
+//@   inline NewCompare, Compatible
+//@   forall host Platform, t Platform
+//@   let c = NewCompare(host, nil)
+//@   assume c.host.OS == "windows" || c.host.OS == "darwin"
+//@   assume t.OS == "linux" && t.Architecture == c.host.Architecture && t.Variant == c.host.Variant
+//@   let x = c.Compatible(t)
+//@   assert linux-image-runs-in-the-vm: x
+
 // C16 "an entry is found whenever at least one runnable entry exists": the scan starts from the
 // zero platform; any compatible entry beats it (for a well-formed request: OS and architecture set)
 //@ lemma found-if-exists
